@@ -1,0 +1,19 @@
+//go:build verif
+
+// Contracts for govc (see /verif/DESIGN.md). Comment-only; compiled only with -tags verif.
+
+package obykeyset
+
+//@ property C06
+
+// A pipeline is created for one key tuple: its id (queue name, logger name) is the tuple joined with "," and its tag is
+// the tag template expanded over exactly this tuple. With util.lemmaJoinedInjective the id identifies the tuple as long
+// as no value contains the separator (the requirement localcachedmap puts on createObject).
+//@ func (o *byKeySetOrchestrator) newPipeline(keys []string, onStopped func()) chan<- []*base.LogRecord
+//@   requires o != nil && o.tagBuilder != nil && o.startPipeline != nil && o.logger != nil && o.metricCreator != nil
+//@   requires forall k int :: 0 <= k && k < len(o.tagBuilder.tagExpander.partProviders) ==> o.tagBuilder.tagExpander.partProviders[k] != nil
+//@   requires[keys-are-permanent-copies] forall i int :: 0 <= i && i < len(keys) ==> !shared(keys[i])
+//@   modifies everything
+//@   ensures[pipeline-id-is-the-joined-key-tuple] joinedof(obase.lastbufid, joinpos, keys, 44, len(keys))
+//@   ensures[tag-is-the-template-over-this-tuple] len(old(o.tagBuilder.tagExpander.partProviders)) == 1 ==> obase.lasttag === stringtemplate.ppval(ref(old(o.tagBuilder.tagExpander.partProviders[0])), keys)
+//@   ensures[tag-length-is-the-template-over-this-tuple] len(old(o.tagBuilder.tagExpander.partProviders)) != 1 ==> len(obase.lasttag) == stringtemplate.elen(old(o.tagBuilder.tagExpander), keys, len(old(o.tagBuilder.tagExpander.partProviders)))
